@@ -92,6 +92,8 @@ func g2GlobalWrites() []BashCase {
 		{"multi-return-assign", []Stmt{def("gv", il(10)), def("gw", il(20)), fn("two", []Param{{"p", TInt}}, []Type{TInt, TInt}, ret(bin("+", vr("p"), il(1)), bin("*", vr("p"), il(3))))}, []Stmt{Assign{[]string{"gv", "gw"}, []Expr{call("two", vr("a"))}}}, []Expr{vr("gv"), vr("gw")}},
 		{"var-typed-global", []Stmt{VarDecl{Names: []string{"gv"}, Type: TInt}}, []Stmt{set("gv", bin("+", vr("gv"), vr("a")))}, []Expr{vr("gv")}},
 		{"slice-elem", []Stmt{def("gs", SliceLit{TInt, []Expr{il(1), il(2)}})}, []Stmt{SliceSet{"gs", il(1), bin("+", Index{"gs", il(1)}, vr("a"))}, SliceSet{"gs", Len{vr("gs")}, vr("a")}}, []Expr{Index{"gs", il(1)}, Len{vr("gs")}}},
+		{"slice-copy", []Stmt{def("gs", SliceLit{TInt, []Expr{il(1), il(2)}})}, []Stmt{def("n", Copy{"gs", SliceLit{TInt, []Expr{vr("a"), bin("+", vr("a"), il(1))}}}), pr(sl("copied"), vr("n"))}, []Expr{Index{"gs", il(0)}, Index{"gs", il(1)}, Len{vr("gs")}}},
+		{"slice-copy-strings", []Stmt{def("gs", SliceLit{TString, []Expr{sl("a"), sl("b c")}}), def("src", SliceLit{TString, []Expr{sl("x y"), sl("")}})}, []Stmt{def("n", Copy{"gs", vr("src")}), SliceSet{"src", il(0), Itoa{vr("a")}}, pr(sl("copied"), vr("n"))}, []Expr{Index{"gs", il(0)}, Index{"gs", il(1)}, Len{vr("gs")}, Index{"src", il(0)}}},
 		{"in-nested-block", []Stmt{def("gv", il(10))}, []Stmt{ifs(cmp(">", vr("a"), il(0)), forUp("k", 2, OpAssign{"gv", "+", vr("a")}))}, []Expr{vr("gv")}},
 		{"local-same-name-elsewhere", []Stmt{def("gv", il(10)), fn("other", nil, nil, def("lv", il(1)), pr(vr("lv")))}, []Stmt{def("lv", il(3)), set("gv", bin("+", vr("gv"), bin("*", vr("lv"), vr("a"))))}, []Expr{vr("gv")}},
 	}
@@ -422,6 +424,12 @@ func c02Families(c *Check) []BashCase {
 	cases = append(cases, g5Simultaneous()...)
 	cases = append(cases, g6LoopStateAcrossCalls()...)
 	cases = append(cases, g7DerivedNames()...)
+	// G9: the name-reuse matrix again with the shared identifier spelled like an exported name (capital first
+	// letter, all capitals): the spelling of a local decides nothing about its frame
+	for i, bc := range g1NameReuse() {
+		to := []string{"Total", "X", "MaxValue"}[i%3]
+		cases = append(cases, BashCase{Key: "G9/" + to + "/" + bc.Key, Prog: renameProgram(bc.Prog, "x", to)})
+	}
 	// arguments and results that are slices (reference semantics across frames): the aliasing family of C03
 	for _, bc := range s3Aliasing() {
 		bc.Key = "G8/" + bc.Key
